@@ -612,7 +612,40 @@ pub fn replay_c06(case: &Value) -> CaseResult {
 // ---------------------------------------------------------------------------------------------
 // C14
 
-const MATE_FLOOR: i32 = 50_000; // "far below" the mate range 100000-15
+/// The range reserved for mate scores is observed, not assumed: the smallest score the engine's own
+/// info printer (`send_search_info`, through the output hook) reports as `score mate` instead of
+/// `score cp`. "Far below" = less than half of it (49992 on the pinned tree, where it is 100000-15).
+pub fn mate_threshold() -> Result<i32, String> {
+    static T: std::sync::OnceLock<Result<i32, String>> = std::sync::OnceLock::new();
+    T.get_or_init(|| {
+        let prints_mate = |x: i32| -> Result<bool, String> {
+            crate::verif_hooks::arm_sink();
+            let si = crate::search::Search::new_search();
+            let r = catch(|| crate::engine::verif_send_search_info(&si, 1, x, std::time::Instant::now()));
+            let lines = crate::verif_hooks::take_sink();
+            r.map_err(|e| format!("HARNESS: send_search_info panicked on score {}: {}", x, e))?;
+            let l = lines.into_iter().map(|x| x.1).find(|l| l.starts_with("info ")).ok_or("HARNESS: send_search_info printed no info line")?;
+            Ok(l.contains("score mate"))
+        };
+        if prints_mate(0)? {
+            return Err("HARNESS: score 0 is printed as a mate".into());
+        }
+        let (mut lo, mut hi) = (0i32, 9_000_000i32);
+        if !prints_mate(hi)? {
+            return Err("HARNESS: no score up to 9000000 is printed as a mate".into());
+        }
+        while hi - lo > 1 {
+            let mid = lo + (hi - lo) / 2;
+            if prints_mate(mid)? {
+                hi = mid
+            } else {
+                lo = mid
+            }
+        }
+        Ok(hi)
+    })
+    .clone()
+}
 
 fn eval_of(p: &Pos) -> Result<(i32, BoardState), String> {
     let b = BoardState::from_fen(&p.fen()).map_err(|e| format!("from_fen rejected '{}': {}", p.fen(), e))?;
@@ -662,8 +695,9 @@ pub fn c14_position(p: &Pos, extra: u16, st: &mut Stats) -> CaseResult {
     if vf != -v || vb != v {
         return Err(format!("evaluation of '{}' is {}; the same board with only the side-to-move flag flipped (key untouched, as in the null-move search) evaluates to {} (should be {}), and evaluating the original again gives {}", p.fen(), v, vf, -v, vb));
     }
-    if v.abs() >= MATE_FLOOR {
-        return Err(format!("evaluation of '{}' is {}, inside or near the range reserved for mate scores", p.fen(), v));
+    let t = mate_threshold()?;
+    if v.abs() >= t / 2 {
+        return Err(format!("evaluation of '{}' is {}, not far below the range reserved for mate scores (the engine prints scores from {} on as `score mate`; far below = under half of that)", p.fen(), v, t));
     }
     if *p != m {
         st.nontrivial(fp(&(&p.sq, p.stm)));
